@@ -207,7 +207,7 @@ func runC16(c *fw.Ctx) {
 	var hmu sync.Mutex
 	ilv := fnv.New64a()
 	var yieldSeed int64 = c.Seed
-	verifhook.Set(&verifhook.Handler{Point: func(name string) {
+	hookHandler := &verifhook.Handler{Point: func(name string) {
 		n := atomic.AddInt64(&events, 1)
 		switch name {
 		case "goast.ResolveIdent":
@@ -239,7 +239,8 @@ func runC16(c *fw.Ctx) {
 			fmt.Fprintf(ilv, "%d:%s;", g, name)
 			hmu.Unlock()
 		}
-	}})
+	}}
+	verifhook.Set(hookHandler)
 	defer verifhook.Set(nil)
 
 	abandoned := false
@@ -257,6 +258,15 @@ func runC16(c *fw.Ctx) {
 		}
 		c.Case(id, func() {
 			c.Observe("goroutine_counts", fmt.Sprint(G))
+			// every fourth round runs without the hook (its counters are atomics, which order the
+			// goroutines for the race detector) and with a resolver per goroutine where one is not
+			// needed: nothing but the library's own synchronisation orders the calls
+			quiet := round%4 == 3
+			if quiet {
+				verifhook.Set(nil)
+				defer verifhook.Set(hookHandler)
+				c.Count("rounds_without_hook", 1)
+			}
 			// a guess resolver of the round's own over a fresh copy of the name table (one shared
 			// value for all goroutines of the round: nothing it has seen before)
 			roundNames := map[string]string{}
@@ -427,7 +437,11 @@ func runC16(c *fw.Ctx) {
 							}
 						case 1, 2:
 							res.op = "imports/shared-goast-map"
-							out, tree, err := c16Imports(ref.src, sharedMap, guessMap)
+							shared := sharedMap
+							if quiet {
+								shared = goast.WithResolver(guess.WithMap(map[string]string{"math/rand/v2": "rand", "gopkg.in/yaml.v2": "yaml", "a/x/chi/v5": "chi"}))
+							}
+							out, tree, err := c16Imports(ref.src, shared, guessMap)
 							res.out, res.tree = out, tree
 							if err != nil {
 								res.err = err.Error()
